@@ -181,6 +181,21 @@ func cmdCheck(args []string) {
 	// a clause of a contract that was proved on the unchanged tree stays claimed wherever the
 	// current code makes it an obligation: a new return statement or call site failing it is a
 	// regression of that clause, not a new, undecided obligation
+	// callee preconditions: a precondition clause that was proved at EVERY call site of a unit on
+	// the unchanged tree stays claimed at any call site the current code has in that unit (also
+	// through a new helper executed in place); one that was left undecided at some site is
+	// matched site by site
+	provedReq, undecidedReq := map[string]bool{}, map[string]bool{}
+	for _, n := range lock[*prop] {
+		if k := reqKeyOfName(n); k != "" {
+			provedReq[k] = true
+		}
+	}
+	for _, n := range lock[*prop+"#undecided"] {
+		if k := reqKeyOfName(n); k != "" {
+			undecidedReq[k] = true
+		}
+	}
 	isLocked := func(o *Obligation) bool {
 		if locked[o.Name] {
 			return true
@@ -188,6 +203,9 @@ func cmdCheck(args []string) {
 		switch o.Kind {
 		case "ensures", "invariant@entry", "invariant@back", "step", "assert", "globalinv":
 			return lockedClause[clauseOf(o.Name)]
+		case "requires@call":
+			k := reqKeyOfName(o.Name)
+			return k != "" && provedReq[k] && !undecidedReq[k]
 		}
 		return false
 	}
@@ -309,6 +327,16 @@ func cmdCheck(args []string) {
 		}
 		sort.Strings(names)
 		lock[*prop] = names
+		var undec []string
+		for _, o := range all {
+			if !o.Cover && !oblOK(o) {
+				if _, isKnown := known[o.Name]; !isKnown {
+					undec = append(undec, o.Name)
+				}
+			}
+		}
+		sort.Strings(undec)
+		lock[*prop+"#undecided"] = undec
 		b, _ := json.MarshalIndent(lock, "", " ")
 		os.WriteFile("/verif/obligations.lock.json", b, 0o644)
 		fmt.Printf("lock written: %d obligations for %s\n", len(names), *prop)
@@ -339,6 +367,21 @@ var rxOrdinal = regexp.MustCompile(`#\d+$`)
 
 // clauseOf strips the occurrence ordinal from an obligation name.
 func clauseOf(name string) string { return rxOrdinal.ReplaceAllString(name, "") }
+
+// reqKeyOfName: for a requires@call obligation, "<unit>#requires@call[<callee clause>]" without
+// the frame suffix (@fn of a callee executed in place) and the occurrence ordinal.
+func reqKeyOfName(name string) string {
+	i := strings.Index(name, "#requires@call[")
+	if i < 0 {
+		return ""
+	}
+	rest := name[i:]
+	j := strings.LastIndex(rest, "]")
+	if j < 0 {
+		return ""
+	}
+	return name[:i] + rest[:j+1]
+}
 
 func sanitize(s string) string {
 	var b strings.Builder
